@@ -206,18 +206,26 @@ def fmtdrive(groups, name, timeout_ms, threads=THREADS, wall=1500, tracer=None):
     if tracer:
         tracer.collect(d)
     jobs, grp = {}, {}
+    aborted = None
     for line in p.stdout.splitlines():
         try:
             r = json.loads(line)
         except Exception:
             continue
-        if "group" in r:
+        if "aborted" in r:
+            aborted = r
+        elif "group" in r:
             grp[r["group"]] = r
         elif "id" in r:
             jobs[r["id"]] = r
     want = [j["id"] for g in groups for v in g["variants"] for j in v["jobs"]]
     missing = [i for i in want if i not in jobs]
-    if missing:
+    if missing and aborted:
+        # the driver stopped after several hangs (each already reported as a job record)
+        C.log("fmtdrive %s: %s, %d jobs not run" % (name, aborted["aborted"], len(missing)))
+        for i in missing:
+            jobs[i] = {"id": i, "result": "skipped", "msg": aborted["aborted"], "ms": 0}
+    elif missing:
         if p.returncode == 0:
             raise C.ToolError("fmtdrive lost %d jobs (%s)" % (len(missing), name))
         for i in missing:   # the driver process died inside the code under test: data
@@ -251,6 +259,8 @@ def judge(rec, cls, header=True, nraw=2, real=False):
     """cls: result class the spec predicts (None for a real formatter). Returns
     ([(kind, detail)] property failures, [text] shape differences)."""
     viol, drift = [], []
+    if rec.get("result") == "skipped":
+        return viol, drift
     if rec.get("result") != "ok":
         return [("write-" + str(rec.get("result")), rec.get("msg", ""))], drift
     if not rec.get("utf8"):
